@@ -603,7 +603,7 @@ int world_feed(world_t *w, int side, const unsigned char *p, int len)
     {
         unsigned char *rb, *pt = NULL;
         uint32 ptlen = 0;
-        int32 cap = matrixSslGetReadbuf(s->ssl, &rb);
+        int32 cap = (w->cfg.feed_of_size && off > 0) ? matrixSslGetReadbufOfSize(s->ssl, 5000, &rb) : matrixSslGetReadbuf(s->ssl, &rb);
         int n;
         if (cap <= 0)
         {
@@ -627,6 +627,10 @@ int world_feed(world_t *w, int side, const unsigned char *p, int len)
             return -9998;
         }
         n = len - off < cap ? len - off : cap;
+        if (w->cfg.feed_of_size && off == 0 && n > 7)
+        {
+            n = 7;
+        }
         memcpy(rb, p + off, (size_t) n);
         off += n;
         rc = matrixSslReceivedData(s->ssl, (uint32) n, &pt, &ptlen);
